@@ -782,7 +782,7 @@ pub fn sanitize_request<T>(
         if start > end {
             return Err(SanitizeError::RangeNotSatisfiable);
         }
-        data.range = Some((start, end + 1));
+        data.range = Some((start, end.saturating_add(1)));
     }
     Ok(data)
 }
